@@ -322,7 +322,8 @@ Judge(cfg, j, ev) ==
       \* /Encrypt).  A configuration with an unrepresentable password may be refused.
       [] ev.call \in {"MakeState", "Rekey"} ->
             LET jm == IF ev.call = "Rekey" THEN [j EXCEPT !.mem = IF ev.tenc THEN "lost" ELSE @, !.disk = "none"] ELSE j IN
-            IF ev.res = "Ok" /\ ev.same THEN Vd(TRUE, {"ok"}, [jm EXCEPT !.st = TRUE])
+            IF ev.call = "Rekey" /\ ev.tenc /\ ev.res = "Err" /\ ev.same THEN Vd(TRUE, {"ok-unjudged"}, j)    \* not on an encrypted document
+            ELSE IF ev.res = "Ok" /\ ev.same THEN Vd(TRUE, {"ok"}, [jm EXCEPT !.st = TRUE])
             ELSE IF ev.same /\ ~(cfg.urep /\ cfg.orep) THEN Vd(TRUE, {"ok-refused"}, [jm EXCEPT !.st = FALSE])
             ELSE Vd(FALSE, {"makestate.err"}, [jm EXCEPT !.st = FALSE])
       \* an edit of the unencrypted document by the caller: the edited document is what has to come back from now on
@@ -429,7 +430,7 @@ AuthO(cfg, pw) == IF cfg.R <= 4 /\ Dev_drop THEN pw.od
 \* EncryptionState::decode: compute_file_encryption_key(document, password)
 DecKey(cfg, pw) ==
     IF cfg.R >= 5 THEN "K"                                       \* Algorithm 2.A: the key comes out of /OE or /UE
-    ELSE IF Dev_h12 THEN (IF pw.u \in {"same", "equiv"} THEN "K" ELSE "Kbad")   \* Algorithm 2 on the offered password itself
+    ELSE IF Dev_h12 THEN (IF AuthU(cfg, pw) THEN "K" ELSE "Kbad")            \* Algorithm 2 on the offered password itself
     ELSE "K"                                                     \* repaired: the user password recovered from /O (Algorithm 7)
 
 \* sanitize_password_r4 / _r6: SASLprep refuses what it cannot prepare; PDFDocEncoding (repaired) what it cannot encode
